@@ -1,5 +1,10 @@
 import MirProofs.Props.C16
-/-! C02 — a segmentation scored against a copy of itself: ARI = 1 (any partition, incl. one cluster / all singletons). -/
+import MirProofs.Lemmas.SegmentRel
+/-! C02 — a segmentation scored against a copy of itself: ARI = 1 (any partition, incl. one cluster / all singletons);
+    pairwise P = R = F = 1 as soon as two frames share a label, Rand = 1 with at least two frames; over the
+    real-number reading of the entropy-based scores: MI(y,y) = H(y), NMI = 1 (entropy at or above the code's 1e-10
+    floor — e.g. up to 10^10 frames), V-measure and NCE = (1, 1, 1) with at least two labels and (0, 0, 0) by the
+    documented convention with one, AMI = 1 outside its early return provided its denominator H − E[MI] is not 0. -/
 namespace Mir.C02.Segment
 open Mir
 
@@ -18,5 +23,140 @@ theorem ari_self (y : List Nat) : Segment.adjustedRandIdx y y = .ok 1 :=
     have h1 := zip_self_eq y p.1 p.2 hp
     have h2 := zip_self_eq y q.1 q.2 hq
     rw [← h1, ← h2])
+
+/-! ### pairwise, Rand -/
+
+/-- pairwise precision = recall = F = 1 for a sequence against itself, for every beta > 0, as soon as some label
+    occurs on two frames (otherwise there is no pair to agree on and all three are 0/0) -/
+theorem pairwise_self (y : List Nat) {beta : ℚ} (hb : 0 < beta) {c : Nat} (hc : 2 ≤ y.count c) :
+    Segment.pairwiseIdx y y beta = .ok (.val 1, .val 1, .val 1) :=
+  Segment.pairwiseIdx_samePartition rfl (Segment.samePartition_self y) hb (Segment.combSums_row_pos rfl hc)
+
+/-- more generally: whenever the two sequences induce the same partition of the frames -/
+theorem pairwise_same_partition {yr ye : List Nat} (hl : yr.length = ye.length) (hp : Segment.SamePartition yr ye)
+    {beta : ℚ} (hb : 0 < beta) {c : Nat} (hc : 2 ≤ yr.count c) :
+    Segment.pairwiseIdx yr ye beta = .ok (.val 1, .val 1, .val 1) :=
+  Segment.pairwiseIdx_samePartition hl hp hb (Segment.combSums_row_pos hl hc)
+
+/-- the Rand index of a sequence of at least two frames against itself is 1 -/
+theorem rand_self (y : List Nat) (hn : 2 ≤ y.length) : Segment.randIdx y y = .ok (.val 1) :=
+  Segment.randIdx_samePartition rfl (Segment.samePartition_self y) hn
+
+theorem rand_same_partition {yr ye : List Nat} (hl : yr.length = ye.length) (hp : Segment.SamePartition yr ye)
+    (hn : 2 ≤ yr.length) : Segment.randIdx yr ye = .ok (.val 1) :=
+  Segment.randIdx_samePartition hl hp hn
+
+example : Segment.pairwiseIdx [0, 0, 1, 2] [0, 0, 1, 2] 1 = .ok (.val 1, .val 1, .val 1) ∧
+    Segment.randIdx [0, 0, 1, 2] [0, 0, 1, 2] = .ok (.val 1) ∧ 2 ≤ [0, 0, 1, 2].count 0 ∧
+    -- without a repeated label the pairwise scores are 0/0
+    Segment.pairwiseIdx [0, 1, 2] [0, 1, 2] 1 = .ok (.nan, .nan, .nan) := by decide +kernel
+
+/-! ### entropy-based scores (model at the real-number instance) -/
+
+/-- **MI(y, y) = H(y)**: the mutual information of a labelling with itself is its Shannon entropy -/
+theorem mi_self (y : List Nat) : Segment.mutualInfoIdx (α := ℝ) y y = Segment.shannon y :=
+  Segment.mutualInfoIdx_real_self y
+
+/-- H(y | y) = 0 -/
+theorem cond_entropy_self (y : List Nat) : Segment.condEntropy2 y y = 0 := Segment.condEntropy2_self y
+
+/-- NMI(y, y) with at least two labels is `H / max(H, 1e-10)`: the unqualified claim "NMI(y, y) = 1" is true exactly
+    when the entropy reaches the floor the code puts under the denominator -/
+theorem nmi_self_iff {y : List Nat} (h : 1 < (Segment.classes y).length) :
+    (Segment.nmiIdx (α := ℝ) y y).1 = 1 ↔ 1 / 10 ^ 10 ≤ Segment.shannon y := by
+  have hp : 0 < Segment.shannon y := (Segment.shannon_pos_iff y).2 h
+  rw [Segment.nmiIdx_real_self h]
+  simp only
+  constructor
+  · intro h1
+    by_contra hlt
+    have hmax : max (Segment.shannon y) (1 / 10 ^ 10) = 1 / 10 ^ 10 := max_eq_right (le_of_lt (not_le.1 hlt))
+    rw [hmax, div_eq_one_iff_eq (by positivity)] at h1
+    exact hlt (le_of_eq h1.symm)
+  · intro hfl
+    rw [max_eq_left hfl, div_self (ne_of_gt hp)]
+
+/-- The full-strength claim "every labelling with at least two labels has NMI(y, y) = 1" is about the real-number
+    model and fails only where the entropy of the labelling is below 1e-10 (more than 10^10 frames, all but a
+    handful in one segment) — see `nmi_self_iff`; the true version follows. -/
+def nmi_self_full_statement : Prop :=
+  ∀ y : List Nat, 1 < (Segment.classes y).length → (Segment.nmiIdx (α := ℝ) y y).1 = 1
+
+/-- NMI(y, y) = 1 (numerator = denominator = H) for every labelling with at least two labels and at most 10^10
+    frames -/
+theorem nmi_self_partial {y : List Nat} (h : 1 < (Segment.classes y).length) (hlen : y.length ≤ 10 ^ 10) :
+    Segment.nmiIdx (α := ℝ) y y = (1, Segment.shannon y, Segment.shannon y) :=
+  Segment.nmiIdx_real_self_one h (Segment.floor_le_shannon h hlen)
+
+/-- the bound behind it: with at least two labels, `H(y) ≥ 1/n` -/
+theorem entropy_ge_inv_length {y : List Nat} (h : 1 < (Segment.classes y).length) :
+    1 / (y.length : ℝ) ≤ Segment.shannon y := Segment.shannon_ge_inv_length h
+
+/-- the full-strength claim is false of the model: 10^12 frames of which a single one carries the second label
+    have entropy `≤ (log 10^12 + 1)/10^12 < 1e-10`, so NMI(y, y) = H/1e-10 < 1.  (Not reachable by running the code:
+    the frame sequence alone would take terabytes; reported as a remark, not as a finding.) -/
+theorem nmi_self_full_statement_false : ¬ nmi_self_full_statement := by
+  intro hfull
+  have hcl : 1 < (Segment.classes (0 :: List.replicate (999999999998 + 1) 1)).length := by
+    rw [Segment.classes_lopsided]; decide
+  have h1 := (nmi_self_iff hcl).1 (hfull _ hcl)
+  exact absurd h1 (not_le.2 Segment.shannon_lopsided_lt_floor)
+
+/-- one label (or none) on both sides: NMI = AMI = 1 by the code's early return -/
+theorem nmi_ami_self_single {y : List Nat} (h : (Segment.classes y).length ≤ 1) :
+    Segment.nmiIdx (α := ℝ) y y = (1, 1, 1) ∧ Segment.amiIdx (α := ℝ) y y = (1, 1, 1) := by
+  have hs : Segment.miSpecial y y := by unfold Segment.miSpecial; omega
+  rw [Segment.nmiIdx_special hs, Segment.amiIdx_special hs]
+  simp [Segment.Transc.ofNat]
+
+/-- **NCE and V-measure of a labelling against itself**: over = under = F = 1 with at least two labels (either
+    normalisation, every beta); 0, 0, 0 — the documented convention — with a single label (or none) -/
+theorem nce_self (y : List Nat) (beta : ℝ) (marginal : Bool) :
+    Segment.nceIdx (α := ℝ) y y beta marginal = if 1 < (Segment.classes y).length then (1, 1, 1) else (0, 0, 0) :=
+  Segment.nceIdx_real_self y beta marginal
+
+theorem v_self {y : List Nat} (h : 1 < (Segment.classes y).length) (beta : ℝ) :
+    Segment.vmeasureIdx (α := ℝ) y y beta = (1, 1, 1) := by
+  unfold Segment.vmeasureIdx
+  rw [Segment.nceIdx_real_self, if_pos h]
+
+/-- AMI(y, y) outside the early return is `(H − E[MI]) / (H − E[MI])`: 1 whenever the denominator is not 0 -/
+theorem ami_self {y : List Nat} (h : 1 < (Segment.classes y).length)
+    (hden : Segment.emiText y y ≠ Segment.shannon y) : (Segment.amiIdx (α := ℝ) y y).1 = 1 :=
+  Segment.amiIdx_real_self_one h hden
+
+/-- **AMI(y, y) = 1** for every labelling with at least two labels in which some label covers at least two frames:
+    then `E[MI] < H` strictly (one hypergeometric term has `n_ij < b_j` with positive weight) -/
+theorem ami_self_one {y : List Nat} (h : 1 < (Segment.classes y).length) {c : Nat} (hc : 2 ≤ y.count c) :
+    (Segment.amiIdx (α := ℝ) y y).1 = 1 := Segment.amiIdx_real_self_eq_one h hc
+
+/-- the strict inequality behind it -/
+theorem emi_self_lt_entropy {y : List Nat} (h : 1 < (Segment.classes y).length) {c : Nat} (hc : 2 ≤ y.count c) :
+    Segment.emiText y y < Segment.shannon y := Segment.emiText_self_lt h hc
+
+/-- the remaining case — every frame has its own label (>= 2 frames): `E[MI] = MI = H = log n`, numerator and
+    denominator of AMI(y, y) are both 0, the score is undefined (binary64: nan or 1.0 depending on rounding) -/
+theorem ami_self_all_singletons {y : List Nat} (hnd : y.Nodup) (h2 : 2 ≤ y.length) :
+    (Segment.amiIdx (α := ℝ) y y).2.1 = 0 ∧ (Segment.amiIdx (α := ℝ) y y).2.2 = 0 :=
+  Segment.amiIdx_real_self_nodup hnd h2
+
+theorem ami_self_num_den {y : List Nat} (h : 1 < (Segment.classes y).length) :
+    (Segment.amiIdx (α := ℝ) y y).2.1 = Segment.shannon y - Segment.emiText y y ∧
+    (Segment.amiIdx (α := ℝ) y y).2.2 = Segment.shannon y - Segment.emiText y y := by
+  rw [Segment.amiIdx_real_self h]
+  exact ⟨rfl, rfl⟩
+
+example : 1 < (Segment.classes [0, 0, 1, 2]).length ∧ [0, 0, 1, 2].length ≤ 10 ^ 10 ∧
+    (Segment.classes [4, 4, 4]).length ≤ 1 ∧ 2 ≤ [0, 0, 1, 2].count 0 ∧ [3, 1, 2].Nodup := by decide +kernel
+
+example : (Segment.amiIdx (α := ℝ) [0, 0, 1, 2] [0, 0, 1, 2]).1 = 1 :=
+  ami_self_one (c := 0) (by decide +kernel) (by decide +kernel)
+
+example : Segment.nmiIdx (α := ℝ) [0, 0, 1, 2] [0, 0, 1, 2] =
+    (1, Segment.shannon [0, 0, 1, 2], Segment.shannon [0, 0, 1, 2]) ∧
+    Segment.vmeasureIdx (α := ℝ) [0, 0, 1, 2] [0, 0, 1, 2] 1 = (1, 1, 1) ∧
+    Segment.nceIdx (α := ℝ) [4, 4, 4] [4, 4, 4] 1 false = (0, 0, 0) := by
+  refine ⟨nmi_self_partial (by decide +kernel) (by decide +kernel), v_self (by decide +kernel) 1, ?_⟩
+  rw [nce_self, if_neg (by decide +kernel)]
 
 end Mir.C02.Segment
